@@ -477,7 +477,7 @@ impl Engine for C07 {
     }
     fn health(&self, st: &Stats, _tier: Tier) -> Result<(), String> {
         let p = *st.classes.get("preempted_inside_an_operation").unwrap_or(&0);
-        if st.cases >= 200 && p * 4 < st.cases {
+        if st.cases >= 200 && p * 10 < st.cases {
             return Err(format!("only {p} of {} runs preempt inside an operation", st.cases));
         }
         Ok(())
